@@ -26,7 +26,7 @@ def run(chk, ix, tier):
     rules_outline.check_build_order(chk, ix)
     rules_outline.check_step_substitution(chk, ix)
     rules_outline.check_table_modified(chk, ix)
-    rules_outline.check_render_template(chk, ix)
+    rules_outline.check_render_template(chk, ix, tier)
     # the row's line is the row's line in the file (a row scenario is located there): P3 of C04 for table rows and examples
     rules_parser.check_line_numbers(chk, ix)
     chk.rules.pop("E4", None)
